@@ -96,9 +96,21 @@ def run_verus(rs_path, threads=6, extra=()):
         cls = classify(d.get("message", ""), code)
         if cls == "summary":
             continue
+        def _outer(s):
+            # a span inside a std macro (debug_assert!, assert!, unreachable!, ...) is reported at the
+            # macro's definition; follow the expansion chain out to the invocation in the generated file
+            base = os.path.basename(rs_path)
+            cur, hops = s, 0
+            while cur is not None and os.path.basename(cur.get("file_name") or "") != base and hops < 12:
+                cur = (cur.get("expansion") or {}).get("span")
+                hops += 1
+            if cur is not None and cur is not s:
+                return dict(cur, label=s.get("label"), is_primary=s.get("is_primary"))
+            return s
         spans = [dict(file=s.get("file_name"), line_start=s.get("line_start"), line_end=s.get("line_end"),
                       label=s.get("label"), primary=s.get("is_primary"),
-                      text=(s.get("text") or [{}])[0].get("text", "").strip()[:200]) for s in d.get("spans", [])]
+                      text=(s.get("text") or [{}])[0].get("text", "").strip()[:200])
+                 for s in map(_outer, d.get("spans", []))]
         out["diags"].append(dict(message=d.get("message"), cls=cls, code=code, spans=spans,
                                  rendered=(d.get("rendered") or "")[:3000]))
     if not j:
@@ -142,8 +154,26 @@ def attribute(diag, meta, rs_file):
     return fn, clause
 
 
+_RUN_DIR = None
+
+
+def _run_dir():
+    """Generated files of this process go to their own directory (concurrent checks - e.g. a
+    background seeded-change run and an interactive one - must never share generated text)."""
+    global _RUN_DIR
+    if _RUN_DIR is None:
+        import atexit
+        import shutil
+        _RUN_DIR = os.path.join(VERIF, "build", f"run_{os.getpid()}")
+        os.makedirs(_RUN_DIR, exist_ok=True)
+        if not os.environ.get("VERIF_KEEP_BUILD"):
+            atexit.register(lambda: shutil.rmtree(_RUN_DIR, ignore_errors=True))
+    return _RUN_DIR
+
+
 def run_unit(unit, twin=True, threads=6, outdir=None):
     """Returns a result dict: status pass|violation|undecided, obligations list, etc."""
+    outdir = outdir or _run_dir()
     res = {"unit": unit, "status": "pass", "violations": [], "undecided": [], "meta": None, "run": None,
            "twin": None}
     try:
